@@ -360,7 +360,14 @@ class Report:
             replay_paths.append(path)
             lines.append("VIOLATION property=%s replay=%s" % (self.pid, path))
             log("  violation: %s — %s" % (v["signature"], v["what"]))
+        if self.violations or self.known_hits:
+            # further solver witnesses that could not be confirmed natively are noise once one was confirmed
+            self.unconfirmed = [m for m in self.mismatches if "did not reproduce natively" in m]
+            self.mismatches = [m for m in self.mismatches if "did not reproduce natively" not in m]
+        else:
+            self.unconfirmed = []
         cov = dict(self.coverage)
+        cov["unconfirmed_witnesses"] = self.unconfirmed[:5]
         cov["subclaims"] = self.subclaims
         cov["undecided"] = self.undecided
         cov["known_findings_hit"] = [h["signature"] for h in self.known_hits]
